@@ -5,6 +5,7 @@ package evmhost
 
 import (
 	"fmt"
+	"os"
 	"go/ast"
 	"go/parser"
 	"go/token"
@@ -28,8 +29,14 @@ var Hub2ABI abi.ABI
 var WethABI abi.ABI
 var wethBin []byte
 
-// WethSource is the file the WETH9 bytecode is read from.
-const WethSource = "/repo/solidity/contracts/WETH9.go"
+// WethSource is the file the WETH9 bytecode is read from (under the tree named by VERIF_REPO, default /repo).
+var WethSource = func() string {
+	r := os.Getenv("VERIF_REPO")
+	if r == "" {
+		r = "/repo"
+	}
+	return r + "/solidity/contracts/WETH9.go"
+}()
 
 func init() {
 	a, err := abi.JSON(strings.NewReader(hub2.Hub2MetaData.ABI))
